@@ -183,6 +183,8 @@ impl<E: Exfiltrator> SignalsInfo<E> {
     /// Returns true if it was possible to read a byte and false otherwise.
     fn has_signals(read: &mut UnixStream) -> Result<bool, Error> {
         loop {
+            #[cfg(feature = "verif-hooks")]
+            signal_hook_registry::verif::point(signal_hook_registry::verif::site::IT_HAS_BEFORE_READ, 0, 0);
             match read.read(&mut [0u8]) {
                 Ok(num_read) => break Ok(num_read > 0),
                 // If we get an EINTR error it is fine to retry reading from the stream.
